@@ -182,12 +182,14 @@ class Interp:
         self.pure_calls = set(pure_calls)
         self.on_method = None       # hook(term, name, args, kwargs)
         self.stubs = {}             # in-repo qualname -> behaviour
+        self.on_yield = None        # hook(interp, value) for generators
         self.ret_types = {'unicodedata.normalize': 'str', 're.sub': 'str',
                           're.Pattern.sub': 'str'}
         self.types = {}             # term -> type tag
         self.attrs = {}             # term -> {attribute: value}
         self.lens = {}              # term -> known length
         self.not_none = {}          # term -> bool
+        self.distinct = set()       # terms pairwise distinct, not None
         self.method_raises = {}     # str/bytes method -> [exception names]
         self.call_raises = {}       # builtin name -> [exception names]
         self._reset_path([])
@@ -449,7 +451,7 @@ class Interp:
                 return self.eval(node.body, fr)
             finally:
                 self.frames.pop()
-        if _is_generator(node):
+        if _is_generator(node) and self.on_yield is None:
             return self.opaque_call(f.qualname, f, args, kwargs)
         fr = Frame(f, env, len(self.frames))
         self.frames.append(fr)
@@ -507,6 +509,12 @@ class Interp:
             obj.fields.setdefault('args', TupleV(args))
         return obj
 
+    def current_exception(self):
+        for f in reversed(self.frames):
+            if f.exc_stack:
+                return f.exc_stack[-1]
+        return None
+
     def raise_builtin(self, name, msg=''):
         return AbsRaise(T('exc', name, msg))
 
@@ -544,8 +552,6 @@ class Interp:
     def st_Expr(self, s, fr):
         if isinstance(s.value, ast.Constant):
             return
-        if isinstance(s.value, (ast.Yield, ast.YieldFrom)):
-            raise Inexact('yield')
         self.eval(s.value, fr)
 
     def st_Pass(self, s, fr):
@@ -721,10 +727,9 @@ class Interp:
 
     def set_item(self, base, idx, v):
         if isinstance(base, DictV):
-            if isinstance(idx, (K, TupleV)) or isinstance(idx, T):
-                base.set(idx, v)
-                if not isinstance(idx, K):
-                    base.unknown = True
+            base.set(idx, v)
+            if isinstance(idx, T):
+                base.unknown = True
             self.effect('setitem', self.termify_ref(base), self.termify(idx),
                         self.termify(v))
         elif isinstance(base, ListV) and isinstance(idx, K) and \
@@ -1210,7 +1215,10 @@ class Interp:
         return DictV(self._comp(e, fr, 'dict'))
 
     def ex_Yield(self, e, fr):
-        raise Inexact('yield')
+        if self.on_yield is None:
+            raise Inexact('yield')
+        v = self.eval(e.value, fr) if e.value is not None else K(None)
+        return self.on_yield(self, v)
 
 
 def _load(t):
